@@ -3,10 +3,20 @@
    This file only closes statements with proved lemmas; the instance theorems are concrete histories
    (with the observations the implementation produced for them) re-evaluated inside Coq. *)
 From Coq Require Import List NArith.
-From Proto Require Import Broker Script ProofsBasic ProofsInstances.
+From Proto Require Import Broker Script ProofsBasic ProofsInstances Props ProofsSession.
 Import ListNotations.
 Open Scope N_scope.
 
 Theorem C10_instance_c10_sessions : run_broker [262144] h_c10_sessions = o_c10_sessions.
 Proof. exact ProofsInstances.inst_c10_sessions. Qed.
 Print Assumptions C10_instance_c10_sessions.
+
+(* session-present flag and the session installed by an accepted CONNECT *)
+Theorem C10_connect_session : Props.C10_connect_session.
+Proof. exact ProofsSession.connect_session. Qed.
+Print Assumptions C10_connect_session.
+
+(* what the end of a connection keeps (persistent) or removes (clean) *)
+Theorem C10_stop_session : Props.C10_stop_session.
+Proof. exact ProofsSession.stop_session. Qed.
+Print Assumptions C10_stop_session.
